@@ -366,7 +366,7 @@ def _select_item(src, scope, sel):
     if m and not sel.startswith("match") and not sel.startswith("stmts"):
         sel, nth = m.group(1).strip(), int(m.group(2))
     items = parse_items(src.toks, scope[0], scope[1])
-    kind = sel.split()[0]
+    kind = re.match(r"^[a-z_]+", sel).group(0)
     cands = []
     if kind == "impl":
         want = _norm(sel)
@@ -690,7 +690,8 @@ def resolve(repo, address):
     sels = []
     fpath = parts[0]
     for p in parts[1:]:
-        if p.split("#")[0].split()[0:1] and p.split("#")[0].split()[0] in KW or p.startswith("match#") or p.startswith("stmts#"):
+        kwm = re.match(r"^([a-z_]+)\b", p)
+        if (kwm and kwm.group(1) in KW) or p.startswith("match#") or p.startswith("stmts#"):
             sels.append(p)
         else:
             if not sels:
@@ -702,7 +703,7 @@ def resolve(repo, address):
     kind = "item"
     region = None
     for sel in sels:
-        head = sel.split("#")[0].split()[0] if not sel.startswith(("match#", "stmts#")) else sel.split("#")[0]
+        head = re.match(r"^([a-z_]+)", sel).group(1) if not sel.startswith(("match#", "stmts#")) else sel.split("#")[0]
         if head in ("arm", "match", "stmts"):
             if region is None:
                 if item is None or item.body_open is None:
